@@ -1,5 +1,5 @@
 """C31 — The embedded runtime executes Wa output like an independent engine."""
-import collections, concurrent.futures as cf, glob, hashlib, os, subprocess, sys
+import collections, concurrent.futures as cf, glob, hashlib, json, os, subprocess, sys
 
 from lib import vlib
 from gen import instmod
@@ -239,11 +239,19 @@ def grid(ctx, h, model, ev):
         if rc != 0:
             raise vlib.InfraError("the repo's assembler rejects the per-instruction module %s: %s" % (a, err[-1500:]))
     ops = []
-    cdir = os.path.join(vlib.VERIF, "corpus", PROP)
-    for fn in sorted(glob.glob(os.path.join(cdir, "*.ops"))):          # minimised past failures first
-        ops += [l for l in open(fn).read().splitlines() if l and not l.startswith("#")]
-    ncorpus = len(ops)
-    ops += instmod.ops(funcs, ctx.rng, ctx.tier)
+    if ctx.replay:
+        rp = json.load(open(ctx.replay)).get("replay", {})
+        ops = [rp["op"]] if rp.get("kind") == "grid" else []
+        ncorpus = 0
+    else:
+        cdir = os.path.join(vlib.VERIF, "corpus", PROP)
+        for fn in sorted(glob.glob(os.path.join(cdir, "*.ops"))):          # minimised past failures first
+            ops += [l for l in open(fn).read().splitlines() if l and not l.startswith("#")]
+        ncorpus = len(ops)
+        ops += instmod.ops(funcs, ctx.rng, ctx.tier)
+    if not ops:
+        ev.update({"grid_ops": 0, "grid_distribution": {}})
+        return 0, set(), []
     text = "\n".join(ops) + "\n"
     lidx, llines = lean_lines(funcs, ops)
     outs = {}
@@ -263,6 +271,10 @@ def grid(ctx, h, model, ev):
         if len(lo) != len(llines):
             ctx.proof["broken"].append({"theorem": "correspondence C31 reference driver", "why": "wamodel_c31 answered %d of %d lines" % (len(lo), len(llines))})
         lean = dict(zip(lidx, lo))
+    if ctx.replay:
+        for k in outs:
+            print("REPLAY %-12s %s -> %s" % (k, ops[0], outs[k][0] if outs[k] else "<no answer>"))
+        print("REPLAY %-12s %s -> %s" % ("lean", llines[0] if llines else "-", lean.get(0, "<not modelled>")))
     for k, v in outs.items():
         if len(v) != len(ops):
             raise vlib.InfraError("engine %s answered %d of %d lines" % (k, len(v), len(ops)))
@@ -354,6 +366,12 @@ def status_compatible(w, n):
 
 def discover_programs(ctx):
     """(tag, path, virtual name) of candidate Wa programs: fixed corpus, /repo examples and tests, generated ones if available"""
+    if ctx.replay:
+        rp = json.load(open(ctx.replay)).get("replay", {})
+        if rp.get("kind") != "program":
+            return []
+        path = os.path.join(vlib.REPO if not rp["file"].startswith("corpus") else vlib.VERIF, rp["file"])
+        return [("replay", path, os.path.basename(path))]
     progs = [("corpus", f, os.path.basename(f)) for f in sorted(glob.glob(os.path.join(vlib.VERIF, "corpus", PROP, "*.wa")))]
     repo = []
     for root in ("waroot/examples", "tests"):
@@ -361,7 +379,12 @@ def discover_programs(ctx):
             dn.sort()
             for f in sorted(fn):
                 if f.endswith(".wa") and not f.endswith("_test.wa"):
-                    repo.append(("repo", os.path.join(dp, f), f))
+                    try:
+                        src = open(os.path.join(dp, f), errors="replace").read()
+                    except OSError:
+                        continue
+                    if "\nfunc main" in "\n" + src:           # a program, not a package file
+                        repo.append(("repo", os.path.join(dp, f), f))
     if ctx.tier == "quick" and len(repo) > 14:
         repo = sorted(ctx.rng.sample(repo, 14), key=lambda t: t[1])
     progs += repo
@@ -435,6 +458,9 @@ def whole_modules(ctx, h, ev):
                     skipped["timeout-everywhere"] += 1
                     continue
             ran += 1
+            if ctx.replay:
+                for e in engines:
+                    print("REPLAY %-12s %s -> %s" % (e, rel, res[e][:400]))
             nd = res["node"].split()
             outcomes[tag + ":" + nd[0].split(":")[0]] += 1
             for e in engines:
